@@ -132,6 +132,7 @@ class World(object):
         self.bmodel = bmodel
         self.features = []
         self.obj2elem = {}
+        self._outlines = []
         for rd in self.rendered:
             f = parse_feature(rd.text, filename=rd.filename)
             self.features.append(f)
@@ -179,6 +180,8 @@ class World(object):
         self.runner.context = Context(self.runner)
         if o.get("hooks"):
             self.runner.hooks = self._make_hooks()
+        if o.get("autoretry") or o.get("continue_after_failed_step"):
+            self.bind_rows(build=True)
         if o.get("autoretry"):
             from behave.contrib.scenario_autoretry import patch_scenario_with_autoretry
             for e in self.scenario_elems():
@@ -206,12 +209,29 @@ class World(object):
                 if ce.kind == "rule":
                     bind_items(ce, co)
                 elif ce.kind == "outline":
-                    rows = co.scenarios
-                    assert len(rows) == len(ce.children), (ce, rows)
-                    for re_, ro in zip(ce.children, rows):
-                        re_.obj = ro
-                        self.obj2elem[id(ro)] = re_
+                    # rows are bound lazily: behave expands an outline on first use and a never
+                    # reached outline must stay unexpanded (as in a real run)
+                    self._outlines.append(ce)
         bind_items(fe, feature)
+
+    def bind_rows(self, build=False):
+        for ce in self._outlines:
+            if ce.children and ce.children[0].obj is not None:
+                continue
+            rows = ce.obj.scenarios if build else ce.obj._scenarios
+            if not rows:
+                continue
+            assert len(rows) == len(ce.children), (ce, rows)
+            for re_, ro in zip(ce.children, rows):
+                re_.obj = ro
+                self.obj2elem[id(ro)] = re_
+
+    def elem_of(self, obj):
+        e = self.obj2elem.get(id(obj))
+        if e is None and obj is not None:
+            self.bind_rows()
+            e = self.obj2elem.get(id(obj))
+        return e
 
     def scenario_elems(self):
         out = []
@@ -226,7 +246,7 @@ class World(object):
     def _stepfn(self, context, src):
         from behave.api.pending_step import StepNotImplementedError
         sc = getattr(context, "scenario", None)
-        e = self.obj2elem.get(id(sc))
+        e = self.elem_of(sc)
         sid = e.eid if e is not None else "?"
         self.calls.append((sid, src))
         self.timeline.append(("call", sid, src))
@@ -277,7 +297,7 @@ class World(object):
 
     # -- hooks ------------------------------------------------------------------------------------
     def _label(self, obj):
-        e = self.obj2elem.get(id(obj))
+        e = self.elem_of(obj)
         if e is not None:
             return e.eid
         name = getattr(obj, "name", None)
@@ -301,7 +321,7 @@ class World(object):
                     arg = a if isinstance(a, str) else w._label(a)
                     if isinstance(a, w.bmodel.Step):
                         sc = getattr(context, "scenario", None)
-                        se = w.obj2elem.get(id(sc))
+                        se = w.elem_of(sc)
                         arg = "%s/%s" % (se.eid if se else "?", arg)
                 w.hooklog.append((name, str(arg) if arg is not None else None))
                 w.timeline.append(("hook", name, str(arg) if arg is not None else None))
@@ -310,7 +330,7 @@ class World(object):
                     cands = [e for e in w.elems(("feature", "rule", "scenario", "row")) if arg in e.tags]
                     owner = cands[0].eid if cands else None
                     if len(cands) > 1:
-                        se = w.obj2elem.get(id(getattr(context, "scenario", None)))
+                        se = w.elem_of(getattr(context, "scenario", None))
                         owner = se.eid if se is not None else owner
                 elif "all" in name:
                     owner = None
@@ -341,6 +361,7 @@ class World(object):
                 self.escaped = e
                 self.verdict = None
         self.stdout = buf.getvalue()
+        self.bind_rows(build=True)      # observation time: the loaded model includes every outline row
         return self.verdict
 
     def second_run(self, reset=False):
